@@ -43,7 +43,7 @@ def prim(fn):
 # ---- object invariant of the matcher (C04.O3): required at entry and ensured at exit of every CSSMatch method, and part
 # of every loop invariant; functions that can reach match_default / match_lang / match_indeterminate may modify the caches
 CACHE_INV = ['default_cache_ok(self, self.cached_default_forms, 0)', 'lang_cache_ok(self, self.cached_meta_lang, 0)',
-             'indet_cache_ok(self, self.cached_indeterminate_forms)']
+             'indet_cache_ok(self, self.cached_indeterminate_forms, 0)']
 CACHE_FIELDS = ['self.cached_default_forms', 'self.cached_meta_lang', 'self.cached_indeterminate_forms']
 TOUCHES_CACHES = {'match_selectors', 'match_nth', 'match_subselectors', 'match_past_relations', 'match_future_child', 'match_future_relations',
                   'match_relations', 'match', 'select', 'closest', 'filter', 'match_default', 'match_lang', 'match_indeterminate'}
